@@ -82,3 +82,21 @@ Proof.
   injection H as <- <-. cbn [r_attr]. destruct I as (_ & _ & HC).
   eapply Forall2_impl'; [|exact HC]. intros q p (Hq & Hu & _ & Hg). auto.
 Qed.
+
+(* in terms of the ownership invariant of WorldProofs: the deep copy of any complex is owned by its
+   new uid, and for an owned source with another uid the contents hypothesis holds by itself *)
+Theorem deepcopy_owned hp r uid hp' r' : deepcopy_rep hp r uid = (hp', r') -> owned r' /\ r_uid r' = uid.
+Proof.
+  intros H. destruct (deepcopy_same_structure _ _ _ _ _ H) as (Hu & _).
+  destruct (deepcopy_attr_names_and_owner _ _ _ _ _ H) as (_ & Hf).
+  split; [|exact Hu]. intros s h Hin. rewrite Forall_forall in Hf. rewrite Hu. exact (Hf _ Hin).
+Qed.
+
+Theorem deepcopy_contents_owned hp r uid hp' r' :
+  owned r -> r_uid r <> uid -> deepcopy_rep hp r uid = (hp', r') ->
+  Forall2 (fun q p => fst q = fst p /\ fst (snd q) = uid /\ heap_get hp' (snd q) = heap_get hp (snd p))
+          (r_attr r') (r_attr r).
+Proof.
+  intros Ho Hne H. apply (deepcopy_contents _ _ _ _ _ H).
+  apply Forall_forall. intros [s h] Hin. cbn [fst snd]. rewrite (Ho _ _ Hin). exact Hne.
+Qed.
